@@ -110,9 +110,44 @@ def run_text_oracle(outcome, tier, seed):
             base = len(reqs)
             reqs.append({"id": base, "to": to, "calls": [{"input": shared.hx(data), "from": fmt, "mode": mode, "sched": {"kind": "fixed", "n": 2}}]})
             plans.append(("unrep", fmt, data, mode, (to, reason), base))
+    # (c) positions: an '@' where a JSON value should stand, after every kind of leading white space and in later documents;
+    # serde_json names the line and the byte column of the offending character
+    for data in (b'\n\n  {"a": @}', b'  \t{"a":1,\n "b": @}', b'\r\n{\r\n"a": [1, @]}', b'{"a":1}\n\n {"b": @}', b" [1,2,@]", b"@", b"\n@",
+                 b'{"k":"\xc3\xa9\xc3\xa9", "b": @}', b"\n" * 40 + b" " * 70 + b"[@]", b'[1]\n[2]\n[3, @]\n'):
+        k = data.index(b"@")
+        want = "expected value at line %d column %d" % (data[:k].count(b"\n") + 1, k - (data[:k].rfind(b"\n") + 1) + 1)
+        for mode in ("slice", "reader"):
+            for to in STREAMING:
+                base = len(reqs)
+                reqs.append({"id": base, "to": to, "calls": [{"input": shared.hx(data), "from": "json", "mode": mode, "sched": {"kind": "fixed", "n": 3}}]})
+                plans.append(("position", "json", data, mode, (to, want), base))
+    # (d) text that is wrong before any document starts must fail from a slice and from a reader alike
+    for fmt, data in (("yaml", b'"unterminated\n'), ("yaml", b"'unterminated\n"), ("yaml", b"@at\n"), ("yaml", b"# c\n`tick\n"),
+                      ("yaml", b"%YAML 1.1\n%YAML 1.1\n---\na: 1\n"), ("yaml", b"\x01a: 1\n"), ("yaml", b"# c\n" * 2800 + b"\x01\n---\na: 1\n"),
+                      ("json", b"   "+ b"]"), ("toml", b"= 1\n"), ("msgpack", b"\xc1")):
+        for mode in ("slice", "reader"):
+            for to in STREAMING:
+                base = len(reqs)
+                reqs.append({"id": base, "to": to, "calls": [{"input": shared.hx(data), "from": fmt, "mode": mode, "sched": {"kind": "fixed", "n": 5}}]})
+                plans.append(("mustfail", fmt, data, mode, (to, None), base))
     resps = common.harness_batch(reqs)
     checked = 0
     for kind, fmt, data, mode, extra, base in plans:
+        if kind == "position":
+            to, want = extra
+            r = shared.session_result(resps[base])
+            checked += 1
+            if r[0] != "err" or r[1] != want:
+                outcome.oracle_failures.append({"what": "the message does not name the position of the offending character (%r expected)" % want,
+                                                "from": fmt, "to": to, "mode": mode, "input_hex": shared.hx(data), "observed": r[:2]})
+            continue
+        if kind == "mustfail":
+            r = shared.session_result(resps[base])
+            checked += 1
+            if r[0] != "err" or not r[1].strip():
+                outcome.oracle_failures.append({"what": "malformed input is not reported at all (no error, or an empty message)",
+                                                "from": fmt, "to": extra[0], "mode": mode, "input_hex": shared.hx(data)[:400], "observed": r[:2]})
+            continue
         if kind == "syntax":
             rs = {to: shared.session_result(resps[base + i]) for i, to in enumerate(STREAMING)}
             for to, r in rs.items():
